@@ -310,7 +310,7 @@ class World:
                     ns[op[1]] = c
                     ret("newchannel", c)
                 elif k == "remote_exec":
-                    call("remote_exec")
+                    call("remote_exec", None, op[3] if len(op) > 3 else 0)
                     src = f"import sim.world as W\nW.CURRENT.remote_body(channel, {op[2]!r})\n"
                     try:
                         c = self.gw.remote_exec(src)
